@@ -1,12 +1,11 @@
 #!/bin/bash
-# usage: tools/confirm_seed.sh <worktree> <n> <seed-id> <property>
-# Confirms, in the scratch worktree, a seeded change delivered in <worktree>/OUT/<n>/ (patch.diff, demo.cc):
+# usage: tools/confirm_seed.sh <build-worktree> <dir-with-patch.diff-and-demo.cc> <seed-id> <property>
+# Confirms, in the scratch worktree, a seeded change delivered in <dir> (patch.diff, demo.cc):
 #   with the patch : library builds, the project's test suite passes, demo FAILS
 #   without        : demo PASSES
 # and, if all of that holds, stores it as /verif/seeded/<seed-id>/ (patch.diff, demo.cc, README.txt, meta.json skeleton).
 set -u
-wt=$1; n=$2; id=$3; prop=$4
-out=$wt/OUT/$n
+wt=$1; out=$2; id=$3; prop=$4
 cd $wt || exit 2
 git checkout -q -- src 2>/dev/null
 git apply --check $out/patch.diff || { echo "PATCH DOES NOT APPLY"; exit 1; }
